@@ -56,3 +56,56 @@ theorem twoLocal_star (I : R) (hI : star I = -I) (d : Nat) (coefS : Nat → Nat 
     | nil => simp
     | cons a t ih => simp [ih]; ring
   rw [hneg]; ring
+
+/-! ### round 6: `to_AB` and the table-free form of `ABk2localHermitian.forward` -/
+
+/-- `ABk2localHermitian.to_AB()` is Hermitian (real parameter matrix) -/
+theorem toAB_star (I : R) (hI : star I = -I) (M : Nat → Nat → R) (hM : ∀ a b, star (M a b) = M a b) (r c : Nat) :
+    star (toAB I M c r) = toAB I M r c := by
+  unfold toAB
+  rcases Nat.lt_trichotomy r c with h | h | h
+  · have h' : ¬ c < r := by omega
+    simp only [h, h', if_true, if_false, star_add, star_neg, star_mul', hI, hM]; ring
+  · subst h; simp [hM]
+  · have h' : ¬ r < c := by omega
+    simp only [h, h', if_true, if_false, star_add, star_mul', hI, hM]; ring
+
+theorem embed0_star (m : Nat) (H : Nat → Nat → R) (hH : ∀ r c, star (H c r) = H r c) (r c : Nat) :
+    star (embed0 m H c r) = embed0 m H r c := by
+  unfold embed0
+  by_cases h : r % m = c % m
+  · rw [if_pos h, if_pos h.symm, hH]
+  · rw [if_neg h, if_neg (fun e => h e.symm), star_zero]
+
+/-- **the sum over the `B` copies of the embedded `H_AB` is Hermitian** — no table hypotheses: this is the matrix that
+`ABk2localHermitian.forward` is tied to (op `abk2sum`) -/
+theorem sumEmbed_star (I : R) (hI : star I = -I) (dimB kext : Nat) (M : Nat → Nat → R) (hM : ∀ a b, star (M a b) = M a b) (r c : Nat) :
+    star (sumEmbed I dimB kext M c r) = sumEmbed I dimB kext M r c := by
+  unfold sumEmbed
+  rw [star_list_sum, List.map_map]
+  congr 1
+  apply List.map_congr_left
+  intro x _
+  exact embed0_star _ _ (fun r c => toAB_star I hI M hM r c) _ _
+
+theorem permIndex_one (dimB r : Nat) (hB : 0 < dimB) : permIndex dimB 1 0 0 r = r := by
+  unfold permIndex
+  simp [Nat.div_add_mod']
+
+/-- for `kext = 1` the sum is `to_AB` itself -/
+theorem sumEmbed_one (I : R) (dimB : Nat) (hB : 0 < dimB) (M : Nat → Nat → R) (r c : Nat) :
+    sumEmbed I dimB 1 M r c = toAB I M r c := by
+  unfold sumEmbed
+  simp [permIndex_one dimB _ hB, embed0, Nat.mod_one]
+
+/-- `embed0 m H` is `np.kron(H, eye(m))`: entry `(a·m + q, b·m + q')` is `H a b` when `q = q'` and `0` otherwise -/
+theorem embed0_kron (m : Nat) (hm : 0 < m) (H : Nat → Nat → R) (a b q q' : Nat) (hq : q < m) (hq' : q' < m) :
+    embed0 m H (a * m + q) (b * m + q') = if q = q' then H a b else 0 := by
+  unfold embed0
+  have e1 : (a * m + q) % m = q := by rw [Nat.mul_comm, Nat.mul_add_mod]; exact Nat.mod_eq_of_lt hq
+  have e2 : (b * m + q') % m = q' := by rw [Nat.mul_comm, Nat.mul_add_mod]; exact Nat.mod_eq_of_lt hq'
+  have d1 : (a * m + q) / m = a := by rw [Nat.mul_comm, Nat.mul_add_div hm, Nat.div_eq_of_lt hq, Nat.add_zero]
+  have d2 : (b * m + q') / m = b := by rw [Nat.mul_comm, Nat.mul_add_div hm, Nat.div_eq_of_lt hq', Nat.add_zero]
+  rw [e1, e2, d1, d2]
+
+end Numqi.Manifold.ABk
